@@ -1,11 +1,15 @@
 // Package durability binds spec/Durability.tla + spec/TraceDurability.tla (C08) to the real
 // store.ChainDatabase / account.Manager by crash-point enumeration.
 //
+//	vh drive durability-calib     sizes the payloads of the script so that one record of every kind per block has a
+//	                              length of k*256-1, k*256 or k*256+1 bytes on disk (boundary.go), measured on the
+//	                              tmp.data the real code writes (layout.go).
 //	vh drive durability-workload  runs a seeded block insertion / stabilisation script in THIS process,
 //	                              logging every completed step (fsynced ndjson).  The verif crash hook of
 //	                              /repo/store (verif_crash.go) kills the process at the armed crash point.
 //	vh drive durability-recover   reopens the directory in a fresh process, logs what the real code presents
-//	                              (opened or panicked, stable block, reads by hash/height, accounts, code,
+//	                              (opened or panicked, the records left in tmp.data and FileQueue.Offset after the
+//	                              recovery scan, stable block, reads by hash/height, accounts, code,
 //	                              storage, version trie, candidate list), then feeds the rest of the script and
 //	                              logs the resulting hashes and the final observation.
 //
@@ -19,6 +23,7 @@ import (
 	"math/big"
 	"math/rand"
 	"os"
+	"path/filepath"
 	"regexp"
 	"runtime/debug"
 	"sort"
@@ -59,9 +64,11 @@ type step struct {
 
 // script is the seeded workload: the list of steps and, per block, the account operations.
 type script struct {
-	NB    int
-	Steps []step
-	seed  int64
+	NB      int
+	Steps   []step
+	seed    int64
+	Pads    []pad    // per block: filler lengths of the four payload knobs (see boundary.go)
+	Targets []target // records whose on-disk length is steered onto an alignment boundary class
 }
 
 func newScript(seed int64, nb int) *script {
@@ -88,6 +95,8 @@ func newScript(seed int64, nb int) *script {
 			}
 		}
 	}
+	s.Pads = make([]pad, nb+1)
+	s.planTargets()
 	return s
 }
 
@@ -111,7 +120,11 @@ func (s *script) apply(h int, am *account.Manager) {
 		am.GetAccount(aF).SetBalance(big.NewInt(1000000000))
 		for _, c := range []common.Address{aC1, aC2} {
 			acc := am.GetAccount(c)
-			acc.SetCandidate(profile(c, types.IsCandidateNode))
+			if c == s.candOf(0) {
+				acc.SetCandidate(s.profileOf(0))
+			} else {
+				acc.SetCandidate(profile(c, types.IsCandidateNode))
+			}
 			acc.SetVotes(big.NewInt(0))
 		}
 		return
@@ -143,18 +156,17 @@ func (s *script) apply(h int, am *account.Manager) {
 	}
 	if h == 3 { // a new candidate registers: context.data grows by one item
 		acc := am.GetAccount(aC3)
-		acc.SetCandidate(profile(aC3, types.IsCandidateNode))
+		acc.SetCandidate(s.profileOf(3))
 		acc.SetVotes(big.NewInt(int64(1 + rng.Intn(100000))))
+	} else {
+		// one candidate per block rewrites its profile (introduction text of steered length): its account record
+		am.GetAccount(s.candOf(h)).SetCandidate(s.profileOf(h))
 	}
-	// contract: code at block 1, storage slots rewritten later
+	// contract: a new code version and one storage slot per block, both of steered length (code record, trie leaf record)
 	k := am.GetAccount(aK)
-	if h == 1 {
-		k.SetCode(types.Code(fmt.Sprintf("contract-code-%d-%d", s.seed, rng.Intn(1000))))
-	}
-	if h == 1 || h%2 == 0 {
-		if err := k.SetStorageState(slotKeys[h%2], []byte(fmt.Sprintf("v%d-%d", h, rng.Intn(1000)))); err != nil {
-			panic(err)
-		}
+	k.SetCode(types.Code(s.codeOf(h)))
+	if err := k.SetStorageState(slotKeys[h%2], s.valOf(h)); err != nil {
+		panic(err)
 	}
 }
 
@@ -189,7 +201,7 @@ func (n *node) insert(h int) common.Hash {
 	}
 	n.s.apply(h, n.am)
 	if err := n.am.Finalise(); err != nil {
-		panic(fmt.Sprintf("finalise %d: %v", h, err))
+		engine.Realf("account.Manager.Finalise of block %d: %v", h, err)
 	}
 	logs := n.am.GetChangeLogs()
 	header := &types.Header{
@@ -201,14 +213,15 @@ func (n *node) insert(h int) common.Hash {
 		Time:         genesisTime + uint32(h),
 		VersionRoot:  n.am.GetVersionRoot(),
 		LogRoot:      logs.MerkleRootSha(),
+		Extra:        n.s.extraOf(h),
 	}
 	block := types.NewBlock(header, nil, logs)
 	hash := block.Hash()
 	if err := n.db.SetBlock(hash, block); err != nil {
-		panic(fmt.Sprintf("SetBlock %d: %v", h, err))
+		engine.Realf("ChainDatabase.SetBlock of block %d on its parent: %v", h, err)
 	}
 	if err := n.am.Save(hash); err != nil {
-		panic(fmt.Sprintf("Save %d: %v", h, err))
+		engine.Realf("account.Manager.Save of block %d: %v", h, err)
 	}
 	n.hashes[h] = hash
 	return hash
@@ -267,6 +280,15 @@ func (n *node) observe(refHash []string) map[string]interface{} {
 		}
 	}
 	o["heights_ahead"] = ahead
+	// ... or by hash, in the store itself (not the in-memory tree of unconfirmed blocks): the block record of a commit batch
+	// that recovery redelivered without the stable pointer.  ChainDatabase.SetBlock refuses such a block as existing.
+	hashAhead := 0
+	for h := sh + 1; h >= 0 && h < len(refHash); h++ {
+		if ok, err := store.UtilsHashBlock(n.db.Beansdb, common.HexToHash(refHash[h])); err == nil && ok {
+			hashAhead++
+		}
+	}
+	o["hashes_ahead"] = hashAhead
 	accts := map[string]interface{}{}
 	var kData *types.AccountData
 	for _, a := range order {
@@ -291,8 +313,8 @@ func (n *node) observe(refHash []string) map[string]interface{} {
 			vers = append(vers, fmt.Sprintf("%d=%d@%d", t, r.Version, r.Height))
 		}
 		sort.Strings(vers)
-		accts[names[a]] = acct(true, fmt.Sprintf("bal=%s votes=%s cand=%s code=%x sroot=%x vers=%v", d.Balance, votes,
-			d.Candidate.Profile[types.CandidateKeyIsCandidate], d.CodeHash[:4], d.StorageRoot[:4], vers))
+		accts[names[a]] = acct(true, fmt.Sprintf("bal=%s votes=%s cand=%s prof=%s code=%x sroot=%x vers=%v", d.Balance, votes,
+			d.Candidate.Profile[types.CandidateKeyIsCandidate], digest([]byte(d.Candidate.Profile[types.CandidateKeyIntroduction])), d.CodeHash[:4], d.StorageRoot[:4], vers))
 	}
 	o["accounts"] = accts
 	// contract code and storage through the stable account data (code store + storage trie nodes)
@@ -303,7 +325,7 @@ func (n *node) observe(refHash []string) map[string]interface{} {
 			if err != nil {
 				code = "ERR:" + err.Error()
 			} else {
-				code = string(c)
+				code = digest(c)
 			}
 		}
 		if kData.StorageRoot != (common.Hash{}) {
@@ -316,7 +338,7 @@ func (n *node) observe(refHash []string) map[string]interface{} {
 					if err != nil {
 						storage = append(storage, "ERR:"+err.Error())
 					} else {
-						storage = append(storage, string(v))
+						storage = append(storage, digest(v))
 					}
 				}
 			}
@@ -395,11 +417,15 @@ func driveWorkload(args []string) error {
 	nb := fs.Int("nb", 6, "blocks after genesis")
 	mode := fs.String("mode", "work", "work: the script | ref: promote every block at once and observe after each")
 	sched := fs.String("sched", "free", "free | drain (wait for the async writer after every step) | lag (writer released at the end)")
+	padsp := fs.String("pads", "", "filler lengths computed by durability-calib")
 	if err := fs.Parse(args); err != nil {
 		return err
 	}
 	lg := newLogger(*logp)
 	s := newScript(*seed, *nb)
+	if err := s.loadPads(*padsp); err != nil {
+		return err
+	}
 	n := &node{s: s, hashes: map[int]common.Hash{}}
 	n.db = store.NewChainDataBase(*dir)
 	if *mode == "ref" {
@@ -416,7 +442,9 @@ func driveWorkload(args []string) error {
 			n.drain()
 			o2 := n.observe(hashes)
 			if fmt.Sprint(o) != fmt.Sprint(o2) {
-				return fmt.Errorf("reference run: observation changes when the writer drains (h=%d)\n%v\n%v", h, o, o2)
+				// no crash anywhere: the same reads answered from the WAL index and, once the async writer has moved the
+				// records, from the bitcask files.  There is no reference to build when the real code disagrees with itself.
+				engine.Realf("a node that never stopped reads differently before and after its async writer drains (stable block %d)\nbefore: %v\nafter:  %v", h, o, o2)
 			}
 			obsAt = append(obsAt, o)
 		}
@@ -444,13 +472,30 @@ func driveWorkload(args []string) error {
 		}
 		lg.put(map[string]interface{}{"i": i + 1, "op": st.Op, "h": st.H, "hits": store.VerifCrashHits()})
 	}
+	end := map[string]interface{}{"op": "end", "h": -1}
+	if *sched == "lag" && os.Getenv("VERIF_CRASH_SCHED") == "lag" {
+		// the writer never ran: tmp.data holds every record of the script.  Its layout (what the real code wrote) and the
+		// steered records go into the reference; a target off its class is a harness error, not a verdict.
+		recs, size, stop := walLayout(filepath.Join(*dir, "tmp.data"))
+		if stop != "eof" {
+			engine.Failf("tmp.data of the uncrashed lag run does not parse to its end (%s after %d records, size %d)", stop, len(recs), size)
+		}
+		lens, flgs := []int{}, []int{}
+		for _, r := range recs {
+			lens, flgs = append(lens, r.Len), append(flgs, r.Flg)
+		}
+		end["layout"] = map[string]interface{}{"lens": lens, "flgs": flgs, "size": size, "stop": stop}
+		end["targets"] = s.checkTargets(recs, n.hashes)
+		end["pads"] = s.Pads
+	}
 	store.VerifReleaseWriter()
 	n.drain()
 	hashes := []string{}
 	for h := 0; h <= *nb; h++ {
 		hashes = append(hashes, n.hashes[h].Hex())
 	}
-	lg.put(map[string]interface{}{"op": "end", "h": -1, "hits": store.VerifCrashHits(), "hash": hashes, "final": n.observe(hashes)})
+	end["hits"], end["hash"], end["final"] = store.VerifCrashHits(), hashes, n.observe(hashes)
+	lg.put(end)
 	return nil // the process exits without Close(): the end of the script is one more crash point
 }
 
@@ -487,6 +532,7 @@ func driveRecover(args []string) error {
 	seed := fs.Int64("seed", 1, "")
 	nb := fs.Int("nb", 6, "")
 	mode := fs.String("mode", "observe", "observe | reopen (open, let the writer drain, exit: used with an armed crash point)")
+	padsp := fs.String("pads", "", "filler lengths computed by durability-calib")
 	if err := fs.Parse(args); err != nil {
 		return err
 	}
@@ -504,7 +550,17 @@ func driveRecover(args []string) error {
 		}
 	}
 	s := newScript(*seed, *nb)
+	if err := s.loadPads(*padsp); err != nil {
+		return err
+	}
 	n := &node{s: s, hashes: map[int]common.Hash{}}
+	// what the dead process left in tmp.data, read by the harness BEFORE the real code touches it: the unpadded length
+	// of every complete record from the start of the file, and why the walk stopped
+	pre, preSize, preStop := walLayout(filepath.Join(*dir, "tmp.data"))
+	preLens := []int{}
+	for _, r := range pre {
+		preLens = append(preLens, r.Len)
+	}
 	opened := func() (ok bool) {
 		defer func() {
 			if r := recover(); r != nil {
@@ -526,6 +582,8 @@ func driveRecover(args []string) error {
 	}
 	// observation while the WAL is still being replayed by the async writer, and after it has drained
 	rec := map[string]interface{}{"ev": "Recover", "opened": true, "died": false, "site": ""}
+	// FileQueue.Offset right after the recovery scan (nothing has been appended yet): where the next record will go
+	rec["wal"] = map[string]interface{}{"lens": preLens, "size": preSize, "stop": preStop, "offset": n.db.Beansdb.Queue.Offset}
 	func() {
 		defer func() {
 			if r := recover(); r != nil {
@@ -538,6 +596,7 @@ func driveRecover(args []string) error {
 		rec["obs"] = n.observe(ref.Hash)
 		n.drain()
 		rec["obs_drained"] = n.observe(ref.Hash)
+		rec["casks"] = caskLayout(n.db) // the replay has been moved into the bitcask files: their record layout and offsets
 	}()
 	lg.put(rec)
 	if _, bad := rec["obs_panic"]; bad {
@@ -587,6 +646,7 @@ func driveRecover(args []string) error {
 		cont["hashes"] = hashes
 		cont["errors"] = errs
 		cont["final"] = n.observe(ref.Hash)
+		cont["casks"] = caskLayout(n.db)
 		// a clean stop and restart of the continued node must present the same state again
 		n.db.Close()
 		n.db, n.am = store.NewChainDataBase(*dir), nil
